@@ -6,7 +6,7 @@ use vbase::gens::{self, DocParams};
 use vbase::refjson::{self, classify_number, show_bytes, trunc, Kind, Node, NumClass};
 use vbase::{ensure, fail};
 
-pub const RULE: &str = "cases are well-formed JSON texts t (generated with duplicate keys, escapes, every number class, layout variation; golden documents; corpus files). v = parse(t), s = to_string(v): parse(s) == v, to_string(parse(s)) == s byte for byte, the reference trees of s and t have identical key sequences at every object (order and duplicates kept), every integer-class literal reappears with its canonical digits, every float keeps its f64 bits, strings keep their decoded text; Display, to_string and to_vec agree; the same text read as Vec<Value> element, map value and later stream document serializes to the same bytes; documents nested 20..=122 levels deep with two or more members per level; pretty output re-parses to v and equals reindent(s). In the sort_keys build every object's members are the stable sort of the source members by key (ascending, members sharing a key keep their order); in raw-number mode (use_rawnumber / arbitrary_precision build) every number token of s is byte-identical to the literal in t. Non-trivial = an object with >= 2 members or a float needing >= 15 significant digits; distinct by text.";
+pub const RULE: &str = "cases are well-formed JSON texts t (generated with duplicate keys, escapes, every number class, layout variation; golden documents; corpus files). v = parse(t), s = to_string(v): parse(s) == v, to_string(parse(s)) == s byte for byte, the reference trees of s and t have identical key sequences at every object (order and duplicates kept), every integer-class literal reappears with its canonical digits, every float keeps its f64 bits, strings keep their decoded text; Display, to_string and to_vec agree; the same text read as Vec<Value> element, map value and later stream document serializes to the same bytes; documents of 4..64 KiB of multi-byte characters, flat containers of ~200,000 members, documents nested 20..=122 levels deep with two or more members per level; pretty output re-parses to v and equals reindent(s). In the sort_keys build every object's members are the stable sort of the source members by key (ascending, members sharing a key keep their order); in raw-number mode (use_rawnumber / arbitrary_precision build) every number token of s is byte-identical to the literal in t. Non-trivial = an object with >= 2 members or a float needing >= 15 significant digits; distinct by text.";
 pub const ASSUMPTIONS: &[&str] = &["refjson parser", "Rust std float parsing"];
 
 /// compare the reference trees of source t and output s
@@ -230,6 +230,31 @@ pub fn run(ctx: &Ctx) {
         out.push(b'}');
         out
     });
+    // documents of 4..64 KiB filled with multi-byte characters (writers that work in blocks)
+    ctx.search(s, "large-utf8", ctx.n(300, 4_000), 120, &|src: &mut Src| gens::gen_large_utf8(src));
+    // flat containers whose node count exceeds the thread-local node buffer
+    {
+        let mut big: Vec<Vec<u8>> = Vec::new();
+        for n in [196_607usize, 196_608, 200_000] {
+            let mut a = Vec::with_capacity(n * 2 + 2);
+            a.push(b'[');
+            for i in 0..n {
+                if i > 0 {
+                    a.push(b',');
+                }
+                a.push(b'0' + (i % 10) as u8);
+            }
+            a.push(b']');
+            big.push(a);
+        }
+        // (an object with ~100,000 members would do as well, but `Object ==` on parsed objects is quadratic in
+        // the member count; a small object holding a large array crosses the same node count)
+        let mut o = b"{\"k\":1,\"arr\":".to_vec();
+        o.extend_from_slice(&big[1]);
+        o.extend_from_slice(b",\"z\":[2]}");
+        big.push(o);
+        ctx.cases(&subs[1], &big);
+    }
     // deep nesting with two or more members per level (separators and indentation at depth)
     ctx.search(s, "deep", ctx.n(6_000, 60_000), 200, &|src: &mut Src| gens::gen_deep(src));
     // wide objects (more members than any small-sort cutoff), keys from a small pool so that many repeat
